@@ -701,6 +701,109 @@ func probeTargets(c *ev.Check) {
 	}
 }
 
+// probeOutcomes: "healthy" is what the endpoint's last probe said - with the real probe function (GatewayHealthCheck
+// through the controller) and every way a probe can end: 200, 500, 404, no answer at all until the prober's own
+// deadline, headers but never the whole body, connection refused, and recovery after each. After every probe the
+// endpoint's readiness must be what that probe showed, and traffic must follow (no request at an unhealthy endpoint,
+// the healthy one is served).
+func probeOutcomes(c *ev.Check) {
+	ctl := ctlrig.New()
+	r := e2e.NewWithManager(ctl.C)
+	e0, u := e2e.NewUpstream("e0"), e2e.NewUpstream("e1")
+	defer func() {
+		r.Close()
+		e0.Close()
+		u.Close()
+	}()
+	if _, err := ctl.Apply(e2e.ClusterObject("po", e0)); err != nil {
+		c.EngineError("probe-outcomes: " + err.Error())
+		return
+	}
+	ci, _ := ctl.C.Get("po")
+	if ci == nil {
+		c.EngineError("probe-outcomes: cluster not created")
+		return
+	}
+	ci.VerifSetHealthCheckInterval(time.Hour) // e1 joins with a one-hour loop: after its first probe only triggered probes reach it
+	if _, err := ctl.Apply(e2e.ClusterObject("po", e0, u)); err != nil {
+		c.EngineError("probe-outcomes: " + err.Error())
+		return
+	}
+	info, _ := ci.Endpoints.Load(u.URL())
+	ready := func(want bool, d time.Duration) bool {
+		deadline := time.Now().Add(d)
+		for time.Now().Before(deadline) {
+			if info.IsReady() == want {
+				return true
+			}
+			time.Sleep(5 * time.Millisecond)
+		}
+		return info.IsReady() == want
+	}
+	i0, _ := ci.Endpoints.Load(e0.URL())
+	for d := time.Now().Add(20 * time.Second); time.Now().Before(d) && !(info.IsReady() && i0.IsReady()); {
+		time.Sleep(5 * time.Millisecond)
+	}
+	if !info.IsReady() || !i0.IsReady() {
+		c.EngineError("probe-outcomes: the rig's cluster did not become ready")
+		return
+	}
+	time.Sleep(50 * time.Millisecond)
+	steps := []struct {
+		mode string
+		want bool
+	}{{"500", false}, {"", true}, {"hang", false}, {"", true}, {"404", false}, {"", true}, {"slow-body", false}, {"", true}, {"refused", false}}
+	for _, st := range steps {
+		if st.mode == "refused" {
+			u.Server.CloseClientConnections()
+			u.Server.Listener.Close()
+		} else {
+			u.SetProbeMode(st.mode)
+		}
+		before := u.ProbeCount()
+		info.TriggerHealthCheck()
+		if st.mode != "refused" {
+			for d := time.Now().Add(20 * time.Second); time.Now().Before(d) && u.ProbeCount() == before; {
+				time.Sleep(2 * time.Millisecond)
+			}
+			if u.ProbeCount() == before {
+				c.EngineError("probe-outcomes: the triggered probe never arrived")
+				return
+			}
+		}
+		label := map[string]string{"": "200 ok", "500": "500", "404": "404", "hang": "no answer until the prober gives up", "slow-body": "200 with a body that never completes", "refused": "connection refused"}[st.mode]
+		c.Add("probe_outcome_cases", 1)
+		// the probe's own deadline is 5 s; 30 s is a generous upper bound, not an oracle
+		if !ready(st.want, 30*time.Second) {
+			c.Violation("probing/probe-outcome-not-recorded", fmt.Sprintf("the endpoint's health probe ended with [%s]; 30 s later the endpoint is ready=%v (the probe showed ready=%v)", label, info.IsReady(), st.want), map[string]string{"probe_answer": st.mode})
+			return
+		}
+		c.Outcome("probe_outcomes", fmt.Sprintf("%s->ready=%v", label, st.want))
+		u.Requests()
+		e0.Requests()
+		for i := 0; i < 6; i++ {
+			if resp, _, err := r.Do("GET", "po", "/api/v1/pods", nil, nil); err != nil || resp.StatusCode != 200 {
+				code := 0
+				if resp != nil {
+					code = resp.StatusCode
+				}
+				c.Violation("probing/request-fails-beside-unhealthy-endpoint", fmt.Sprintf("after a probe of e1 ended with [%s] a request for the cluster (e0 is healthy) ended with status %d err %v", label, code, err), map[string]string{"probe_answer": st.mode})
+				return
+			}
+		}
+		n1, n0 := 0, len(e0.Requests())
+		if st.mode != "refused" {
+			n1 = len(u.Requests())
+		}
+		if !st.want && n1 > 0 {
+			c.Violation("probing/unhealthy-endpoint-picked", fmt.Sprintf("after a probe of e1 ended with [%s] %d of 6 requests were forwarded to e1", label, n1), map[string]string{"probe_answer": st.mode})
+		}
+		if st.want && (n1 == 0 || n0 == 0) {
+			c.Violation("probing/healthy-endpoint-not-served", fmt.Sprintf("after a probe of e1 ended with [%s] 6 requests were distributed e0=%d e1=%d", label, n0, n1), map[string]string{"probe_answer": st.mode})
+		}
+	}
+}
+
 // ------------------------------------------------------------------ engine A
 
 type obsA struct {
@@ -923,6 +1026,7 @@ func main() {
 	tasks = append(tasks, ev.Task{Name: "probing", Run: func() { probing(c) }})
 	tasks = append(tasks, ev.Task{Name: "triggered-probes", Run: func() { triggeredProbes(c) }})
 	tasks = append(tasks, ev.Task{Name: "probe-targets", Run: func() { probeTargets(c) }})
+	tasks = append(tasks, ev.Task{Name: "probe-outcomes", Run: func() { probeOutcomes(c) }})
 	tasks = append(tasks, ev.Task{Name: "stress", Run: func() { stress(c, time.Duration(c.Pick(1500, 6000))*time.Millisecond) }})
 	bounds := []int{0, 1, 2}
 	if c.Thorough() {
